@@ -44,6 +44,8 @@ SCHEDS = [
     {"policy": "random", "p": 0.3, "preempt": "line"},
     {"policy": "pct", "d": 2, "horizon": 3000, "preempt": "line"},
     {"policy": "rr", "q": 3, "preempt": "line"},
+    {"policy": "random", "p": 0.5, "preempt": "sync"},
+    {"policy": "pct", "d": 2, "horizon": 150, "preempt": "sync"},
 ]
 T3 = 2.0
 SVIDS = [10, "svt", 1002, 1003, 1004, 1005, 9999, "nope"]
